@@ -176,20 +176,94 @@ Lemma civil_parts n y m d :
   civil_from_days n = (y, m, d) -> year_of n = y /\ month_of n = m /\ day_of n = d.
 Proof. unfold year_of, month_of, day_of. intros ->. auto. Qed.
 
+(* DateItem::calculate for a duration that is not negative (the body of Items.date_calc) *)
+Definition date_calc_nn (days dur : Z) (op : optype) : res (option Z) :=
+  let years_n := Z.abs dur / YEAR in
+  match op with
+  | OAdd =>
+    Ok (option_bind
+          (if years_n =? 0 then Some (days, dur)
+           else option_map (fun d' => (d', dur - YEAR * years_n))
+                           (ymd_opt (year_of days + years_n) (month_of days) (day_of days)))
+          (fun st1 =>
+             let '(date, dur) := st1 in
+             let months_n := Z.abs dur / MONTH in
+             option_bind
+               (if months_n =? 0 then Some (date, dur)
+                else
+                  let total := month_of date - 1 + months_n in        (* month0() + n *)
+                  option_map (fun d' => (d', dur - MONTH * months_n))
+                             (ymd_opt (year_of date + total / 12) (total mod 12 + 1) (day_of date)))
+               (fun st2 => let '(date, dur) := st2 in date_add_opt date dur)))
+  | OSub =>
+    Ok (option_bind
+          (if years_n =? 0 then Some (days, dur)
+           else option_map (fun d' => (d', dur - YEAR * years_n))
+                           (ymd_opt (year_of days - years_n) (month_of days) (day_of days)))
+          (fun st1 =>
+             let '(date, dur) := st1 in
+             let months_n := Z.abs dur / MONTH in
+             option_bind
+               (if months_n =? 0 then Some (date, dur)
+                else
+                  let years := year_of date - Z.quot months_n 12 in
+                  let months := month_of date - Z.rem months_n 12 in
+                  let months := if months <=? 0 then months + 12 else months in
+                  option_map (fun d' => (d', dur - MONTH * months_n))
+                             (ymd_opt years months (day_of date)))
+               (fun st2 => let '(date, dur) := st2 in date_add_opt date (- dur))))
+  | _ => Ok None
+  end.
+
+Definition flip_op (op : optype) : optype := match op with OAdd => OSub | OSub => OAdd | o => o end.
+
+Lemma date_calc_nonneg days dur op : 0 <= dur -> date_calc days dur op = date_calc_nn days dur op.
+Proof.
+  intro H. unfold date_calc. destruct (Z.ltb_spec dur 0) as [L|L]; [lia|]. reflexivity.
+Qed.
+
+Lemma date_calc_neg days dur op : dur < 0 -> date_calc days dur op = date_calc_nn days (- dur) (flip_op op).
+Proof.
+  intro H. unfold date_calc. destruct (Z.ltb_spec dur 0) as [L|L]; [|lia]. reflexivity.
+Qed.
+
+(* a negative duration swaps the operation and is applied with its absolute value *)
+Theorem negative_duration days dur :
+  dur < 0 ->
+  date_calc days dur OAdd = date_calc days (- dur) OSub /\
+  date_calc days dur OSub = date_calc days (- dur) OAdd.
+Proof.
+  intro H. rewrite !(date_calc_neg days dur) by exact H. rewrite !(date_calc_nonneg days (- dur)) by lia.
+  split; reflexivity.
+Qed.
+
 (* 2a. fewer than 30 days: exactly that many days away *)
+Lemma calc_days_nn n k :
+  0 <= k < 30 ->
+  date_calc_nn n (k * 86400) OAdd = Ok (if day_in_range (n + k) then Some (add_days n k) else None) /\
+  date_calc_nn n (k * 86400) OSub = Ok (if day_in_range (n - k) then Some (add_days n (- k)) else None).
+Proof.
+  intro Hk.
+  assert (HY : Z.abs (k * 86400) / YEAR = 0) by (rewrite YEAR_val; apply Z.div_small; lia).
+  assert (HM : Z.abs (k * 86400) / MONTH = 0) by (rewrite MONTH_val; apply Z.div_small; lia).
+  unfold date_calc_nn. cbv zeta. rewrite HY. cbn [Z.eqb option_bind]. rewrite HM. cbn [Z.eqb option_bind].
+  split.
+  - rewrite date_add_opt_days. reflexivity.
+  - replace (- (k * 86400)) with ((- k) * 86400) by ring. rewrite date_add_opt_days.
+    unfold add_days. replace (n + - k) with (n - k) by ring. reflexivity.
+Qed.
+
 Theorem calc_days n k :
   -30 < k < 30 ->
   date_calc n (k * 86400) OAdd = Ok (if day_in_range (n + k) then Some (add_days n k) else None) /\
   date_calc n (k * 86400) OSub = Ok (if day_in_range (n - k) then Some (add_days n (- k)) else None).
 Proof.
-  intro Hk.
-  assert (HY : Z.abs (k * 86400) / YEAR = 0) by (rewrite YEAR_val; apply Z.div_small; lia).
-  assert (HM : Z.abs (k * 86400) / MONTH = 0) by (rewrite MONTH_val; apply Z.div_small; lia).
-  unfold date_calc. cbv zeta. rewrite HY. cbn [Z.eqb option_bind]. rewrite HM. cbn [Z.eqb option_bind].
-  split.
-  - rewrite date_add_opt_days. reflexivity.
-  - replace (- (k * 86400)) with ((- k) * 86400) by ring. rewrite date_add_opt_days.
-    unfold add_days. replace (n + - k) with (n - k) by ring. reflexivity.
+  intro Hk. destruct (Z_lt_ge_dec k 0) as [L|G].
+  - rewrite !date_calc_neg by lia. replace (- (k * 86400)) with ((- k) * 86400) by ring.
+    destruct (calc_days_nn n (- k)) as [A S]; [lia|]. cbn [flip_op]. rewrite A, S.
+    unfold add_days. replace (n - - k) with (n + k) by ring. replace (n + - k) with (n - k) by ring.
+    replace (n + - - k) with (n + k) by ring. split; reflexivity.
+  - rewrite !date_calc_nonneg by lia. apply calc_days_nn. lia.
 Qed.
 
 Lemma day_in_range_chrono n y m d :
@@ -226,7 +300,7 @@ Proof.
   { destruct (split_div Y YEAR (M * MONTH + R) HYv) as [H|H]; [nia|exact H|lia]. }
   assert (D2 : Z.abs (M * MONTH + R) / MONTH = M).
   { destruct (split_div M MONTH R HMv) as [H|H]; [lia|exact H|lia]. }
-  unfold date_calc. cbv zeta. rewrite D1. f_equal.
+  rewrite date_calc_nonneg by nia. unfold date_calc_nn. cbv zeta. rewrite D1. f_equal.
   (* the year step *)
   assert (S1 : (if Y =? 0 then Some (n, Y * YEAR + (M * MONTH + R))
                 else option_map (fun d' => (d', Y * YEAR + (M * MONTH + R) - YEAR * Y))
@@ -280,7 +354,7 @@ Proof.
   { destruct (split_div Y YEAR (M * MONTH + R) HYv) as [H|H]; [nia|exact H|lia]. }
   assert (D2 : Z.abs (M * MONTH + R) / MONTH = M).
   { destruct (split_div M MONTH R HMv) as [H|H]; [lia|exact H|lia]. }
-  unfold date_calc. cbv zeta. rewrite D1. f_equal.
+  rewrite date_calc_nonneg by nia. unfold date_calc_nn. cbv zeta. rewrite D1. f_equal.
   assert (S1 : (if Y =? 0 then Some (n, Y * YEAR + (M * MONTH + R))
                 else option_map (fun d' => (d', Y * YEAR + (M * MONTH + R) - YEAR * Y))
                                 (ymd_opt (year_of n - Y) (month_of n) (day_of n)))
@@ -463,7 +537,7 @@ Theorem calc_item {F} {NF : Num F} (bexec : config F -> str -> res (option F)) c
 Proof.
   split.
   - destruct r; reflexivity.
-  - intro dur. destruct op; eexists; reflexivity.
+  - intro dur. unfold date_calc. destruct (dur <? 0); destruct op; eexists; reflexivity.
 Qed.
 
 (* witnesses of the two recorded defects *)
